@@ -4,12 +4,22 @@ go 1.26.8
 
 require (
 	github.com/DistCompiler/pgo/distsys v0.0.0
+	github.com/DistCompiler/pgo/systems/dqueue v0.0.0
+	github.com/DistCompiler/pgo/systems/gcounter v0.0.0
+	github.com/DistCompiler/pgo/systems/loadbalancer v0.0.0
+	github.com/DistCompiler/pgo/systems/locksvc v0.0.0
+	github.com/DistCompiler/pgo/systems/nestedcrdtimpl v0.0.0
+	github.com/DistCompiler/pgo/systems/pbkvs v0.0.0
+	github.com/DistCompiler/pgo/systems/proxy v0.0.0
+	github.com/DistCompiler/pgo/systems/raftkvs v0.0.0
+	github.com/DistCompiler/pgo/systems/shcounter v0.0.0
+	github.com/DistCompiler/pgo/systems/shopcart v0.0.0
 	github.com/anishathalye/porcupine v1.3.0
+	github.com/benbjohnson/immutable v0.4.3
 	github.com/dgraph-io/badger/v3 v3.2103.5
 )
 
 require (
-	github.com/benbjohnson/immutable v0.4.3 // indirect
 	github.com/cespare/xxhash v1.1.0 // indirect
 	github.com/cespare/xxhash/v2 v2.3.0 // indirect
 	github.com/dgraph-io/ristretto v0.2.0 // indirect
@@ -31,3 +41,23 @@ require (
 )
 
 replace github.com/DistCompiler/pgo/distsys => /repo/distsys
+
+replace github.com/DistCompiler/pgo/systems/locksvc => /repo/systems/locksvc
+
+replace github.com/DistCompiler/pgo/systems/dqueue => /repo/systems/dqueue
+
+replace github.com/DistCompiler/pgo/systems/pbkvs => /repo/systems/pbkvs
+
+replace github.com/DistCompiler/pgo/systems/raftkvs => /repo/systems/raftkvs
+
+replace github.com/DistCompiler/pgo/systems/proxy => /repo/systems/proxy
+
+replace github.com/DistCompiler/pgo/systems/loadbalancer => /repo/systems/loadbalancer
+
+replace github.com/DistCompiler/pgo/systems/shcounter => /repo/systems/shcounter
+
+replace github.com/DistCompiler/pgo/systems/gcounter => /repo/systems/gcounter
+
+replace github.com/DistCompiler/pgo/systems/shopcart => /repo/systems/shopcart
+
+replace github.com/DistCompiler/pgo/systems/nestedcrdtimpl => /repo/systems/nestedcrdtimpl
